@@ -281,12 +281,12 @@ serial number), not made a waiter of the call that has ended. -/
 theorem coalesce_finished_call_is_not_joined (s : State) (l key k c : Nat) (sc : Step)
     (hl : LiveLeader s l key k) (hdone : stepS s (.poll l) ≠ s)
     (hs : (stepS s (.poll l)).svcGone = false) (hc : lookup (stepS s (.poll l)).role c = none) :
-    ∃ o, (stepS s (.poll l)).log = s.log ++ [.innerDone l key k o, .result l (outRes k o)] ∧
+    ∃ o r, (stepS s (.poll l)).log = s.log ++ [.innerDone l key k o, .result l r] ∧
       (stepS (stepS s (.poll l)) (.arrive c key sc false)).log =
         (stepS s (.poll l)).log ++ [.innerCall c key (stepS s (.poll l)).serial] := by
-  rcases poll_leader_effect hl with h0 | ⟨o, _, hlog, hreg, _, _⟩
+  rcases poll_leader_effect hl with h0 | ⟨o, r, _, _, _, _, hlog, hreg, _, _⟩
   · exact absurd h0 hdone
-  · refine ⟨o, hlog, ?_⟩
+  · refine ⟨o, r, hlog, ?_⟩
     rw [arrive_free sc hs hc hreg]
     rfl
 
